@@ -48,8 +48,15 @@ def anti_starvation(ctx):
             return
         v = M.v.variant_map({"settings.read_time": True, "settings.write_time": True})
         f = M.fsm
-        for st, mine, other, tname in ((M.read_state, "read_available", "write_available", "settings.read_time"),
-                                       (M.write_state, "write_available", "read_available", "settings.write_time")):
+        # "a read / a write is waiting" = OR over the bank machines' requests of valid & is_read / is_write (role, not name)
+        def avail(kind):
+            t = None
+            for b in ("bm0", "bm1"):
+                x = Op("&", (Sym("%s.cmd.valid" % b), Sym("%s.cmd.%s" % (b, kind))))
+                t = x if t is None else Op("|", (t, x))
+            return key(t)
+        RD, WR = avail("is_read"), avail("is_write")
+        for st, mine, other, tname in ((M.read_state, RD, WR, "settings.read_time"), (M.write_state, WR, RD, "settings.write_time")):
             ls = v.fsm_leaves(f, st)
             outs = [l for l in ls if l.kind == "next" and isinstance(l.value, Const) and l.value.v not in M.refresh_states]
             if not ob.need(len(outs) >= 1, "nphases=%d: no turnaround edge out of %s" % (nph, st)):
@@ -58,16 +65,16 @@ def anti_starvation(ctx):
             tmo = None
             for l in outs:
                 lits = v.guard_lits(l, False)
-                ks = litset(lits)
+                ks = nkeys(v, lits)
                 if other in ks:
                     for a, p in lits:
                         dk = as_disj(a, p)
                         if dk is not None:
-                            dks = litset(dk)
+                            dks = {k_ for x in dk for k_ in ([lkey((deref(v, x[0]), x[1]))])}
                             if "~" + mine in dks:
-                                rest = [x for x in dk if lkey(x) != "~" + mine]
-                                if len(rest) == 1 and rest[0][1]:
-                                    tmo = rest[0][0]
+                                rest = [x for x in dk if lkey((deref(v, x[0]), x[1])) != "~" + mine]
+                                if len(rest) == 1:
+                                    tmo = rest[0]
                                     okedge = True
             ob.instance("nphases=%d state %s turnaround" % (nph, st), [sorted(v.guard_keys(l, False)) for l in outs])
             if not okedge:
@@ -75,13 +82,12 @@ def anti_starvation(ctx):
                           "continuous stream in one direction starves the other" % (st, [sorted(v.guard_keys(l, False)) for l in outs]), outs[0].loc)
                 continue
             # time-out signal: max_time = (time == 0); time loaded with timeout-1 while ~en, decremented while en & ~max
-            tv = v.single_comb_def(tmo)
+            tv = deref(v, tmo[0])
             cnt = None
-            if tv is not None:
-                a, p = literal(tv)
-                if not p:
-                    cnt = a
-            if not ob.need(cnt is not None, "nphases=%d: time-out %s is not (counter == 0)" % (nph, key(tmo))):
+            a, p = literal(tv)
+            if (not p) == tmo[1]:
+                cnt = a
+            if not ob.need(cnt is not None and isinstance(cnt, (Obj, Sym)), "nphases=%d: time-out %s is not (counter == 0)" % (nph, lkey(tmo))):
                 continue
             ds = v.drivers(cnt)
             dec = [d for d in ds if lin_diff(d.target, d.value) is not None and lin_diff(d.target, d.value).is_const() and lin_diff(d.target, d.value).constval() == 1]
